@@ -37,7 +37,7 @@ func init() {
 			"PruferDecode's result is compared through IsEdge only (its missing edge count / degree sequence belongs to C06)",
 		},
 		Run:            run,
-		MinEvaluations: map[string]int{"quick": 150000, "thorough": 1500000},
+		MinEvaluations: map[string]int{"quick": 120000, "thorough": 1500000},
 		MinNontrivial:  map[string]int{"quick": 8000, "thorough": 60000},
 		RequiredObs: []string{
 			"g6:size_header_bytes=1", "g6:size_header_bytes=4",
@@ -971,7 +971,10 @@ func run(c *engine.Ctx) {
 	}
 
 	// 5. larger n: 4-byte graph6 headers (n >= 4096 uses all three size bytes), Multicode up to 255
-	bigN := []int{71, 100, 127, 128, 129, 200, 254, 255, 256, 300, 4095, 4096, 4100}
+	bigN := []int{71, 100, 127, 128, 129, 200, 254, 255, 256, 300, 4096}
+	if c.Thorough() {
+		bigN = append(bigN, 4095, 4100)
+	}
 	for _, n := range bigN {
 		n := n
 		cnt := c.Pick(4, 16)
@@ -980,7 +983,13 @@ func run(c *engine.Ctx) {
 		}
 		unit(c, fmt.Sprintf("large/n=%d", n), func(m *mon) {
 			for _, s := range shapes(n) {
-				if s.name == "edgeless" || s.name == "single-edge-last" || s.name == "star-at-last" || (n <= 300 && (s.name == "complete" || s.name == "complete-minus-last-vertex")) {
+				if n > 300 {
+					if s.name == "star-at-last" { // the matrix comparisons cost n^2 each
+						m.checkGraph(s.g, s.name, fixedPick(n), opts{alts: 0, multicode: false, g6: true})
+					}
+					continue
+				}
+				if s.name == "edgeless" || s.name == "single-edge-last" || s.name == "star-at-last" || s.name == "complete" || s.name == "complete-minus-last-vertex" {
 					m.checkGraph(s.g, s.name, fixedPick(n), opts{alts: 1, multicode: true, g6: true})
 				}
 			}
@@ -991,7 +1000,11 @@ func run(c *engine.Ctx) {
 					p = []float64{0.002, 0.0005, 0.01}[i%3]
 				}
 				g := gen.Random(r, n, p)
-				m.checkGraph(g, fmt.Sprintf("seeded p=%.4f #%d", p, i), picker(r), opts{alts: 1, multicode: true, g6: true})
+				o := opts{alts: 1, multicode: true, g6: true}
+				if n > 300 {
+					o.alts = 0
+				}
+				m.checkGraph(g, fmt.Sprintf("seeded p=%.4f #%d", p, i), picker(r), o)
 			}
 		})
 	}
